@@ -528,6 +528,9 @@ pub enum ConcProfile {
     /// the cache weight equals the combined weight of the whole key universe (it always fits); an owner thread works
     /// sequentially on its own keys while other threads churn TTL keys, deletes and sweeps
     TightFit,
+    /// a few short-lived TTL keys that are expired, deleted, re-put and re-TTL'd by several threads while the sweeper is
+    /// slowed down between its steps (weight release, store removal) and a clock thread keeps expiring keys
+    SweepRace,
 }
 
 fn cop_strategy(profile: ConcProfile, max_key: u8) -> BoxedStrategy<COp> {
@@ -545,7 +548,7 @@ fn cop_strategy(profile: ConcProfile, max_key: u8) -> BoxedStrategy<COp> {
         ConcProfile::Shutdown => prop_oneof![6 => put, 3 => upsert, 3 => delete, 5 => read, 1 => Just(COp::AwaitAll), 1 => Just(COp::Shutdown)].boxed(),
         ConcProfile::Reads => prop_oneof![1 => put, 30 => read, 1 => hold].boxed(),
         ConcProfile::Deadlock => prop_oneof![5 => put, 6 => upsert, 3 => delete, 6 => read, 2 => hold, 1 => Just(COp::AwaitAll)].boxed(),
-        ConcProfile::Bursts | ConcProfile::DeleteWindow | ConcProfile::EvictVsSweep | ConcProfile::PutContention | ConcProfile::TightFit => prop_oneof![6 => put, 2 => upsert, 4 => delete, 1 => read].boxed(),
+        ConcProfile::Bursts | ConcProfile::DeleteWindow | ConcProfile::EvictVsSweep | ConcProfile::PutContention | ConcProfile::TightFit | ConcProfile::SweepRace => prop_oneof![6 => put, 2 => upsert, 4 => delete, 1 => read].boxed(),
     }
 }
 
@@ -628,6 +631,30 @@ fn put_contention_strategy(thorough: bool) -> BoxedStrategy<ConcCase> {
     (cfg, threads, injection).prop_map(|(cfg, threads, injection)| ConcCase { cfg, threads, injection, clock: Vec::new(), monitor: false, consumer: ConsumerMode::Free }).boxed()
 }
 
+fn sweep_race_strategy(thorough: bool) -> BoxedStrategy<ConcCase> {
+    let key = 0u8..3;
+    let short_ttl = prop_oneof![(100u32..=1500).prop_map(TtlSel::Millis), (0u32..=2).prop_map(TtlSel::Secs)];
+    let cycle = (key.clone(), short_ttl.clone(), prop_oneof![Just(TtlReq::Remove), short_ttl.clone().prop_map(TtlReq::Set), Just(TtlReq::Keep)], any::<bool>(), any::<bool>(), read_kind_strategy(), any::<bool>()).prop_map(|(k, ttl, change, wait_upsert, ttl_on_reput, kind, delete_first)| {
+        let mut ops = vec![COp::Put { k, extra: 0, explicit: true, ttl: Some(ttl), wait: true }, COp::Pause(2)];
+        ops.push(COp::Upsert { k, down: 0, ttl: change, wait: wait_upsert });
+        if delete_first { ops.push(COp::Delete { k, wait: true }); }
+        ops.push(COp::Put { k, extra: 1, explicit: true, ttl: if ttl_on_reput { Some(TtlSel::Secs(2)) } else { None }, wait: true });
+        ops.push(COp::Read { kind, keys: vec![k] });
+        if !delete_first { ops.push(COp::Delete { k, wait: true }); }
+        ops
+    });
+    let thread = prop::collection::vec(cycle, 2..=(if thorough { 25 } else { 10 })).prop_map(|cycles| cycles.into_iter().flatten().collect::<Vec<COp>>());
+    let threads = prop::collection::vec(thread, 2..=5);
+    let delay = prop_oneof![(100u16..2000).prop_map(Delay::SleepUs), (1u8..4).prop_map(Delay::Yield)];
+    let extra_site = prop_oneof![Just(Site::SweeperInRetain as u8), Just(Site::CacheWeightDeleteInLock as u8), Just(Site::UpsertAfterStoreUpdate as u8), Just(Site::UpsertBeforeSend as u8), Just(Site::WorkerAfterDequeue as u8), Just(Site::DeleteAfterMarkDeleted as u8)];
+    let injection = ((150u8..=255, (200u16..2500).prop_map(Delay::SleepUs)), prop::collection::vec((extra_site, 30u8..=255, delay), 0..=3), any::<u64>())
+        .prop_map(|((probability, sweeper_delay), mut sites, seed)| { sites.push((Site::CacheWeightDeleteAfterRemove as u8, probability, sweeper_delay)); Injection { sites, seed: seed | 1 } });
+    let cfg = (prop_oneof![Just(1usize), Just(8)], prop_oneof![Just(HashMode::Identity), Just(HashMode::Default)], prop_oneof![Just(100u64), Just(300)])
+        .prop_map(|(cmd_buf, hash, tick_us)| Cfg { counters: 1000, capacity: 16, max_weight: 4000, shards: 2, cmd_buf, pool: 1, buf: 4, tick_us, hash, weight_mode: WeightMode::Table(vec![8, 11, 14, 17, 20]), start_ns: 0, noise_readers: 0 });
+    let clock = prop::collection::vec((50u16..600, 300u32..1400).prop_map(|(pause_us, advance_ms)| ClockStep { pause_us, advance_ms }), 8..=(if thorough { 60 } else { 30 }));
+    (cfg, threads, injection, clock).prop_map(|(cfg, threads, injection, clock)| ConcCase { cfg, threads, injection, clock, monitor: true, consumer: ConsumerMode::Free }).boxed()
+}
+
 pub const TIGHT_OWNER_KEYS: u8 = 2;
 
 fn tight_fit_strategy(thorough: bool) -> BoxedStrategy<ConcCase> {
@@ -668,6 +695,7 @@ fn tight_fit_strategy(thorough: bool) -> BoxedStrategy<ConcCase> {
 
 pub fn conc_case_strategy(profile: ConcProfile, thorough: bool) -> BoxedStrategy<ConcCase> {
     if profile == ConcProfile::TightFit { return tight_fit_strategy(thorough); }
+    if profile == ConcProfile::SweepRace { return sweep_race_strategy(thorough); }
     if profile == ConcProfile::PutContention { return put_contention_strategy(thorough); }
     if profile == ConcProfile::DeleteWindow { return delete_window_strategy(thorough); }
     if profile == ConcProfile::EvictVsSweep { return evict_vs_sweep_strategy(thorough); }
